@@ -180,3 +180,23 @@ def flagnames(v):
     if v is None:
         return "?"
     return "|".join(k for k, b in OPEN_FLAGS.items() if v & b) or "0"
+
+
+def closed_before_handover(ck, S, RID, tag):
+    """rotate(): the sink's own QFile buffers writes (16 KiB): it must be closed or flushed on every path before the file is
+    renamed away and before compressFile() reads it from disk - otherwise the tail written last is in neither file"""
+    from engine.cfg import Graph
+    rt = S.m["rotate"]
+    g = S.g(rt)
+    settle = [n for n in rt.calls(("QFileDevice::close", "QFile::close", "QIODevice::close", "QFileDevice::flush", "QFile::flush")) if S.is_active_file(n.get("obj"))]
+    ssites = set(g.sites_of_nodes(settle))
+    targets = [("renamed", n) for n in rt.calls() if destructive_kind(n) == "rename"] + [("compressed", n) for n in S.calls_to(rt, "compressFile")]
+    for what, n in targets:
+        ts = g.site_of(n)
+        ok = bool(ssites) and ts is not None and g.dominated(ts, ssites)
+        # a write to the active file between the flush/close and the hand-over would fill the buffer again: rotate() writes nothing (C05-O5)
+        ck.ob(RID, sitestr(rt, n), ok, "the active file is closed/flushed on every path before it is %s" % what if ok else
+              "the active file is %s while its last records can still sit in the QFile write buffer: they end up in no file (the %s)" %
+              (what, "compressed copy is made from the on-disk prefix and the original is then removed" if what == "compressed" else "buffer is flushed into the renamed file later, out of order"),
+              key="rotate|%s-before-close|%s" % (what, tag))
+    return len(targets)
